@@ -244,3 +244,200 @@ Fixpoint VB_loop (fuel : nat) (kind : N) (s : list N) : out N (list N * list N) 
 Definition VB_data_iter (kind : N) (s : list N) : out N (list N * list N) := VB_loop (S (length s)) kind s.
 Definition VB_record_iter (kind : N) (s : list N) := payloads (VB_data_iter kind s).
 Definition VB_rdw_iter (kind : N) (s : list N) := with_rdw (VB_data_iter kind s).
+
+(* ======================================================================================================
+   Resumed reading: several iterators, one after the other, on ONE reader object (one source).
+   A generator that has delivered k items to itertools.islice(it, k) is suspended at its k-th yield and is
+   never resumed: the source stays where the code had left it when it yielded.  islice(it, 0) never starts
+   the generator.  [X_take fuel k] is the loop of [X_loop] stopped after the k-th yield; ending [More] =
+   suspended (k items delivered), [Done] = the loop ended before k items.  The third component is the
+   stream the NEXT iterator starts from. *)
+
+Fixpoint F_take {A} (fuel k : nat) (kind : N) (lrecl : Z) (s : list A) : out A (list A) :=
+  match k with
+  | O => ([], More, s)
+  | S k' =>
+      match fuel with
+      | O => ([], Hang, s)
+      | S f =>
+          match read kind lrecl s with
+          | Err e => ([], Raised e, s)
+          | Ok (d, s') =>
+              match d with
+              | [] => ([], Done, s')
+              | _ => emit d (F_take f k' kind lrecl s')
+              end
+          end
+      end
+  end.
+
+Fixpoint F_rdw_take (fuel k : nat) (kind : N) (lrecl : Z) (s : list N) : out N (list N) :=
+  match k with
+  | O => ([], More, s)
+  | S k' =>
+      match fuel with
+      | O => ([], Hang, s)
+      | S f =>
+          match read kind lrecl s with
+          | Err e => ([], Raised e, s)
+          | Ok (d, s') =>
+              match d with
+              | [] => ([], Done, s')
+              | _ => match pack_H2x (N.of_nat (length d + 4)) with
+                     | Err e => ([], Raised e, s')
+                     | Ok h => emit (h ++ d) (F_rdw_take f k' kind lrecl s')
+                     end
+              end
+          end
+      end
+  end.
+
+Fixpoint V_take (fuel k : nat) (kind : N) (s : list N) : out N (list N * list N) :=
+  match k with
+  | O => ([], More, s)
+  | S k' =>
+      match fuel with
+      | O => ([], Hang, s)
+      | S f =>
+          let rdw := firstn 4 s in
+          let s1 := skipn 4 s in
+          match rdw with
+          | [] => ([], Done, s1)
+          | _ =>
+              match unpack_H2x rdw with
+              | Err e => ([], Raised e, s1)
+              | Ok size =>
+                  match read kind (Z.of_N size - 4) s1 with
+                  | Err e => ([], Raised e, s1)
+                  | Ok (d, s2) => emit (rdw, d) (V_take f k' kind s2)
+                  end
+              end
+          end
+      end
+  end.
+
+Fixpoint B_take (fuel k : nat) (kind : N) (s : list N) : out N (list N) :=
+  match k with
+  | O => ([], More, s)
+  | S k' =>
+      match fuel with
+      | O => ([], Hang, s)
+      | S f =>
+          let bdw := firstn 4 s in
+          let s1 := skipn 4 s in
+          match bdw with
+          | [] => ([], Done, s1)
+          | _ =>
+              match unpack_H2x bdw with
+              | Err e => ([], Raised e, s1)
+              | Ok size =>
+                  match read kind (Z.of_N size - 4) s1 with
+                  | Err e => ([], Raised e, s1)
+                  | Ok (d, s2) => emit (bdw ++ d) (B_take f k' kind s2)
+                  end
+              end
+          end
+      end
+  end.
+
+(* the walk over one block, stopped after k yields; also returns how many items are still wanted.
+   A length word of 0 yields the same pair again and again: k of them. *)
+Fixpoint walk_take (fuel k : nat) (L off : N) (suf : list N) : list (list N * list N) * fin * nat :=
+  match k with
+  | O => ([], More, O)
+  | S k' =>
+      match fuel with
+      | O => ([], Hang, k)
+      | S f =>
+          if (off =? L)%N then ([], Done, k)
+          else if (off + 4 <? L)%N then
+            let rdw := firstn 4 suf in
+            match unpack_H2x rdw with
+            | Err e => ([], Raised e, k)
+            | Ok size =>
+                if (size =? 0)%N then (repeat (rdw, []) k, More, O)
+                else let sz := N.to_nat size in
+                     let '(l, fi, want) := walk_take f k' L (off + size)%N (skipn sz suf) in
+                     ((rdw, firstn (sz - 4) (skipn 4 suf)) :: l, fi, want)
+            end
+          else ([], Raised AssertionError, k)
+      end
+  end.
+
+(* RECFM_VB._data_iter stopped after k yields.  The block being walked lives in a local variable of the
+   suspended generator: when the k-th record is not the last of its block, the rest of that block is lost
+   to the next iterator (the stream continues after the block). *)
+Fixpoint VB_take (fuel k : nat) (kind : N) (s : list N) : out N (list N * list N) :=
+  match k with
+  | O => ([], More, s)
+  | S _ =>
+      match fuel with
+      | O => ([], Hang, s)
+      | S f =>
+          let bdw := firstn 4 s in
+          let s1 := skipn 4 s in
+          match bdw with
+          | [] => ([], Done, s1)
+          | _ =>
+              match unpack_H2x bdw with
+              | Err e => ([], Raised e, s1)
+              | Ok size =>
+                  match read kind (Z.of_N size - 4) s1 with
+                  | Err e => ([], Raised e, s1)
+                  | Ok (block, s2) =>
+                      let '(items, fi, want) := walk_take (S (length block)) k (N.of_nat (length block)) 0%N block in
+                      match fi with
+                      | Done => let '(l, f', r) := VB_take f want kind s2 in (items ++ l, f', r)
+                      | _ => (items, fi, s2)
+                      end
+                  end
+              end
+          end
+      end
+  end.
+
+(* one pass = (iterator, how many items): iterator 0 = record_iter, 1 = rdw_iter, 2 = bdw_iter;
+   None = run to exhaustion, Some k = islice(it, k) *)
+Definition pass : Type := (N * option nat)%type.
+
+Definition no_such_iter (s : list N) : out N (list N) := ([], Raised AttributeError, s).
+
+Definition F_pass (kind : N) (lrecl : Z) (p : pass) (s : list N) : out N (list N) :=
+  let '(w, k) := p in
+  if (w =? 0)%N then
+    match k with
+    | None => F_record_iter kind lrecl s
+    | Some O => ([], More, s)
+    | Some n => if (lrecl =? 0)%Z then ([], Raised TypeError, s) else F_take (S (length s)) n kind lrecl s
+    end
+  else if (w =? 1)%N then
+    match k with
+    | None => F_rdw_iter kind lrecl s
+    | Some O => ([], More, s)
+    | Some n => if (lrecl =? 0)%Z then ([], Raised TypeError, s) else F_rdw_take (S (length s)) n kind lrecl s
+    end
+  else no_such_iter s.
+
+Definition V_pass (kind : N) (p : pass) (s : list N) : out N (list N) :=
+  let '(w, k) := p in
+  if (w =? 0)%N then
+    match k with None => V_record_iter kind s | Some n => payloads (V_take (S (length s)) n kind s) end
+  else if (w =? 1)%N then
+    match k with None => V_rdw_iter kind s | Some n => with_rdw (V_take (S (length s)) n kind s) end
+  else no_such_iter s.
+
+Definition VB_pass (kind : N) (p : pass) (s : list N) : out N (list N) :=
+  let '(w, k) := p in
+  if (w =? 0)%N then
+    match k with None => VB_record_iter kind s | Some n => payloads (VB_take (S (length s)) n kind s) end
+  else if (w =? 1)%N then
+    match k with None => VB_rdw_iter kind s | Some n => with_rdw (VB_take (S (length s)) n kind s) end
+  else
+    match k with None => VB_bdw_iter kind s | Some n => B_take (S (length s)) n kind s end.
+
+(* the passes one after the other, each starting where the previous one left the source *)
+Fixpoint run_passes (one : pass -> list N -> out N (list N)) (ps : list pass) (s : list N) : list (out N (list N)) :=
+  match ps with
+  | [] => []
+  | p :: ps' => let o := one p s in o :: run_passes one ps' (snd o)
+  end.
